@@ -180,3 +180,120 @@ class SNAXStreamer_setup_vals_match_fields:
 
     def canary(sh, a, ret):
         check("canary: all values are the constant 0", all(den(v) == 0 for _, v in ret))
+
+
+# =====================================================================================
+# xDMA streamer (snax_xdma.py): declared fields vs generated values
+# =====================================================================================
+from xdsl.dialects.builtin import DenseArrayBase, i8  # noqa: E402
+from xdsl.ir import Block, Region  # noqa: E402
+
+from snaxc.accelerators.snax_xdma import SNAXXDMAAccelerator  # noqa: E402
+from snaxc.accelerators.streamers.extensions import (AddExtension, MaxPoolExtension, MemSetExtension, RescaleDownExtension,  # noqa: E402
+                                                      RescaleUpExtension, StreamerExtension)
+from snaxc.accelerators.streamers.extensions.add_extension import AddLongExtension  # noqa: E402
+from snaxc.accelerators.streamers.streamers import StreamerSystemType  # noqa: E402
+from snaxc.dialects import dart, kernel  # noqa: E402
+
+XOPTS = dict(OPTS, A=AddExtension, L=AddLongExtension, P=MaxPoolExtension, S=MemSetExtension, D=RescaleDownExtension, U=RescaleUpExtension)
+
+
+class XRegionView(RegionView):
+    def __init__(self, operands, patterns, body_ops):
+        self.operands = list(operands)
+        self.stride_patterns = ArrayAttr(patterns)
+        self.body = Region([Block(body_ops)])
+
+
+def mk_kernel(sym, kind):
+    """the op inside the dart.generic of the streaming region (or no generic at all)"""
+    if kind == "nogeneric":
+        return [], None
+    x = mk_opresult(0, i32) if not SYMBOLIC else mk_ident_value(2000, i32)
+    if kind == "add_i32":
+        k = kernel.AddOp.create(operands=[x, x], result_types=[i32])
+    elif kind == "mul_i32":
+        k = kernel.MulOp.create(operands=[x, x], result_types=[i32])
+    else:
+        k = kernel.RescaleOp.create(operands=[x], result_types=[i8], attributes={
+            "input_zp": IntegerAttr(sym.int("in_zp", -8, 8), i32), "output_zp": IntegerAttr(sym.int("out_zp", -8, 8), i32),
+            "multiplier": DenseArrayBase.from_list(i32, [sym.int("mult", 1, 100)]), "shift": DenseArrayBase.from_list(i32, [sym.int("shift", 0, 31)])})
+    g = dart.GenericOp([], Region([Block([k])]))
+    return [g], k
+
+
+def expected_xdma_value(field, names, spec, streamers, operands, raw, zero_address, kernel_op):
+    name, rest = field.split("_", 1)
+    k = names.index(name)
+    zero = is_zero_operand(operands[k])
+    if rest == "enabled_chan" or rest == "enabled_byte":
+        return ("const_ite", zero, 0, -1)
+    exts = [o for o in streamers[k].opts if isinstance(o, StreamerExtension)]
+    if rest == "bypass":
+        v = 0
+        for i, e in enumerate(exts):
+            if kernel_op is not None and e.supported_kernel is not None and e.supported_kernel.is_same_kernel(kernel_op):
+                v = v + 2 ** i
+        return ("const", v)
+    for e in exts:
+        if rest.startswith(e.name + "_") and rest[len(e.name) + 1:].isdigit():
+            j = int(rest[len(e.name) + 1:])
+            if kernel_op is not None and e.supported_kernel is not None and e.supported_kernel.is_same_kernel(kernel_op):
+                return ("const", list(e.get_csr_values(kernel_op))[j])
+            return ("const", 0)
+    return expected_streamer_value(field, names, spec, operands, raw, zero_address)
+
+
+XDMA_CONFIGS = [
+    ("default", None),
+    ("nomask", [("nn", 1, "A"), ("nn", 1, "S")]),
+    ("readermask", [("n", 1, "Ac"), ("n", 1, "t")]),
+    ("bytemask", [("n", 1, "c"), ("n", 1, "cm")]),
+    ("rescale", [("nn", 1, "DUc"), ("nn", 1, "cm")]),
+    ("plain", [("n", 1, ""), ("n", 1, "")]),
+    ("allreader", [("n", 1, "PALDUc"), ("n", 1, "Stcm")]),
+]
+
+
+@contract
+class XDMA_setup_vals_match_fields:
+    target = "snaxc.accelerators.snax_xdma.SNAXXDMAAccelerator._generate_stream_setup_vals"
+    shapes = [dict(config=c, kernel=k, operands=o) for c, _ in XDMA_CONFIGS for k in ("nogeneric", "add_i32", "mul_i32", "rescale_down")
+              for o in (("ptr", "ptr"), ("const", "ptr"), ("ptr", "const"))]
+    quick = lambda sh: sh["config"] in ("default", "nomask", "rescale", "bytemask") and (sh["operands"] != ("ptr", "const") or sh["config"] == "default")
+    total = True
+    compare_ret = False
+
+    def args(sh, sym):
+        cfg = dict(XDMA_CONFIGS)[sh["config"]]
+        if cfg is None:
+            acc = SNAXXDMAAccelerator()
+            spec = [("n" * len(s.temporal_dims), len(s.spatial_dims), "") for s in acc.streamer_config.data.streamers]
+        else:
+            spec = cfg
+            streamers = [Streamer(StreamerType.Reader if i == 0 else StreamerType.Writer, list(f), [8] * ns, [XOPTS[o]() for o in opts]) for i, (f, ns, opts) in enumerate(cfg)]
+            acc = SNAXXDMAAccelerator(StreamerConfiguration(streamers, StreamerSystemType.DmaExt))
+        operands = [mk_operand(sym, k, kind) for k, kind in enumerate(sh["operands"])]
+        pats, raw = mk_patterns(sym, spec, False)
+        body, kop = mk_kernel(sym, sh["kernel"])
+        return [acc, XRegionView(operands, pats, body), spec, operands, raw, kop]
+
+    def requires(sh, a):
+        return True
+
+    def run(sh, a):
+        return a[0]._generate_stream_setup_vals(a[1])
+
+    def ensures(sh, a, ret):
+        acc, op, spec, operands, raw, kop = a
+        fields = list(acc.fields)
+        vals = list(ret)
+        check("exactly one value per declared field", len(vals) == len(fields))
+        check("field names are unique", len(set(fields)) == len(fields))
+        if len(vals) == len(fields):
+            for i in range(len(fields)):
+                exp = expected_xdma_value(fields[i], list(acc.streamer_names), spec, list(acc.streamer_config.data.streamers), operands, raw, acc.zero_address, kop)
+                check_value(f"field {fields[i]} receives the value with that meaning", vals[i][1], exp)
+
+    def canary(sh, a, ret):
+        check("canary: all values are the constant 0", all(den(v) == 0 for _, v in ret))
